@@ -2115,6 +2115,9 @@ Error Assembler::_emit(InstId inst_id, const Operand_& o0, const Operand_& o1, c
         if (!check_signature(o0, o1))
           goto InvalidInstruction;
 
+        if (!check_gp_id(o0, o1, kZR))
+          goto InvalidPhysId;
+
         uint64_t imm = o2.as<Imm>().value_as<uint64_t>();
 
         if (op_data.immediate_op & (1u << 18)) {
